@@ -38,6 +38,13 @@ def perturbations(vp):
     for i, fr in sorted(PRESET_FRAME_RATES.items()):
         out.append(("frame_rate", dict(frame_rate_numer=fr.numerator, frame_rate_denom=fr.denominator)))
     out.append(("frame_rate", dict(frame_rate_numer=7, frame_rate_denom=3)))
+    # ratios that are not in lowest terms are different configured values and must be coded as given
+    for i, fr in sorted(PRESET_FRAME_RATES.items()):
+        out.append(("frame_rate", dict(frame_rate_numer=2 * fr.numerator, frame_rate_denom=2 * fr.denominator)))
+    out.append(("frame_rate", dict(frame_rate_numer=3 * vp["frame_rate_numer"], frame_rate_denom=3 * vp["frame_rate_denom"])))
+    for i, r in sorted(PRESET_PIXEL_ASPECT_RATIOS.items()):
+        out.append(("pixel_aspect_ratio", dict(pixel_aspect_ratio_numer=2 * r.numerator, pixel_aspect_ratio_denom=2 * r.denominator)))
+    out.append(("pixel_aspect_ratio", dict(pixel_aspect_ratio_numer=5 * vp["pixel_aspect_ratio_numer"], pixel_aspect_ratio_denom=5 * vp["pixel_aspect_ratio_denom"])))
     for i, r in sorted(PRESET_PIXEL_ASPECT_RATIOS.items()):
         out.append(("pixel_aspect_ratio", dict(pixel_aspect_ratio_numer=r.numerator, pixel_aspect_ratio_denom=r.denominator)))
     out.append(("pixel_aspect_ratio", dict(pixel_aspect_ratio_numer=5, pixel_aspect_ratio_denom=7)))
